@@ -1,6 +1,7 @@
 (* Proofs/SubmitterProofs.v — lemmas about Model/Submitter.v (property C06). *)
 From Coq Require Import NArith Arith List Bool Sorted Lia ZifyBool ZifyN ZifyNat.
 From Verif Require Import Model.Submitter.
+From Verif Require Check.SubmitterCheck.
 Import ListNotations.
 Open Scope N_scope.
 
@@ -707,3 +708,103 @@ Proof.
   - intros ->. cbn [set_side s_h]. apply Hv. reflexivity.
 Qed.
 
+(* ---- the run-length form of the case files (Model.Submitter.hitem) ------------------------------------- *)
+
+Lemma run_from_app : forall c h1 h2 s, run_from c s (h1 ++ h2) = run_from c (run_from c s h1) h2.
+Proof. intros. unfold run_from. apply fold_left_app. Qed.
+
+(* n single publications = the chain grows by n blocks of that kind, nothing else changes *)
+Lemma publish_run : forall c b n s,
+  run_from c s (repeat (IPublish b) n) =
+  {| s_init := s_init s; s_chain := s_chain s ++ repeat b n; s_h := s_h s; s_d := s_d s |}.
+Proof.
+  intros c b. induction n as [|n IH]; intros s.
+  - cbn [repeat]. rewrite app_nil_r. destruct s; reflexivity.
+  - change (repeat (IPublish b) (S n)) with ([IPublish b] ++ repeat (IPublish b) n).
+    rewrite run_from_app, IH. cbn [run_from fold_left step fst s_init s_chain s_h s_d repeat].
+    rewrite <- app_assoc. reflexivity.
+Qed.
+
+Lemma publish_run_height : forall c b n s,
+  height (run_from c s (repeat (IPublish b) n)) = height s + N.of_nat n.
+Proof.
+  intros. rewrite publish_run. unfold height. cbn [s_init s_chain]. rewrite app_length, repeat_length. lia.
+Qed.
+
+(* a history in run-length form denotes its expansion: appending a run-length item = appending the n single items *)
+Lemma publish_run_length : forall c init (h : list hitem) b n,
+  run c init (expand_hist (h ++ [HPublishN b n])) = run c init (expand_hist h ++ repeat (IPublish b) (N.to_nat n)).
+Proof.
+  intros. unfold expand_hist. rewrite flat_map_app. cbn [flat_map expand]. rewrite app_nil_r. reflexivity.
+Qed.
+
+(* ---- after an idle stretch -------------------------------------------------------------------------- *)
+
+Lemma nonempty_at_last : forall init ch b, 1 <= init ->
+  nonempty_at init (ch ++ [b]) (init - 1 + N.of_nat (length (ch ++ [b]))) = b.
+Proof.
+  intros init ch b H1. unfold nonempty_at. rewrite app_length. cbn [length].
+  replace (init <=? init - 1 + N.of_nat (length ch + 1)) with true by lia. cbn [andb].
+  replace (N.to_nat (init - 1 + N.of_nat (length ch + 1) - init)) with (length ch) by lia.
+  rewrite app_nth2 by lia. rewrite Nat.sub_diag. reflexivity.
+Qed.
+
+(* From any reachable state: the chain stays idle for ANY number n of blocks (no transactions), then a block with
+   transactions is committed.  One data iteration against a DA layer that fails fewer than maxSubmitAttempts
+   times and then accepts puts that block's data on the DA layer — however long the idle stretch was and wherever
+   the data watermark stood (it does not move over empty blocks). *)
+Lemma after_idle_stretch : forall c init hist (n : nat) k fails sc, 1 <= init ->
+  forallb nonprogress fails = true -> (length fails < max_attempts)%nat ->
+  let s := run c init (hist ++ repeat (IPublish false) n ++ [IPublish true]) in
+  height s <= k ->
+  let s' := fst (step c s (ITick KData (fails ++ OAccept k :: sc))) in
+  nonempty_at (s_init s) (s_chain s) (height s) = true /\
+  height s = height (run c init hist) + N.of_nat n + 1 /\
+  In (height s) (acc (s_d s')).
+Proof.
+  intros c init hist n k fails sc H1 Hf Hl s Hk s'.
+  assert (Hi : s_init s = init) by apply run_init.
+  assert (Hs : s = fst (step c (run_from c (run c init hist) (repeat (IPublish false) n)) (IPublish true))).
+  { unfold s. rewrite run_app, run_from_app. reflexivity. }
+  assert (Hch : s_chain s = (s_chain (run c init hist) ++ repeat false n) ++ [true]).
+  { rewrite Hs, publish_run. reflexivity. }
+  assert (Hne : nonempty_at (s_init s) (s_chain s) (height s) = true).
+  { unfold height. rewrite Hi, Hch. apply nonempty_at_last, H1. }
+  assert (Hh : height s = height (run c init hist) + N.of_nat n + 1).
+  { unfold height. rewrite Hi, Hch, run_init, !app_length, repeat_length. cbn [length]. lia. }
+  split; [exact Hne|]. split; [exact Hh|].
+  destruct (eventually_all c init H1 (hist ++ repeat (IPublish false) n ++ [IPublish true]) k fails sc KData Hf Hl Hk)
+    as (Hall & _).
+  apply Hall; [|exact Hne].
+  fold s. rewrite Hi. unfold height in *. rewrite Hi in *. rewrite Hch, !app_length. cbn [length]. lia.
+Qed.
+
+(* ---- the comparator walks exactly the expanded history ------------------------------------------------ *)
+(* The model state Check.SubmitterCheck.check_items ends in (and compares the observations against, item by
+   item) is the state [run_from] reaches on the expansion of the run-length history — the state the theorems of
+   Props/C06.v speak about. *)
+Lemma check_single_state : forall c s i o, fst (Check.SubmitterCheck.check_single c s i o) = fst (step c s i).
+Proof.
+  intros. unfold Check.SubmitterCheck.check_single. destruct (step c s i) as [s' [r el]]. reflexivity.
+Qed.
+
+Lemma check_item_state : forall c s hi o,
+  fst (Check.SubmitterCheck.check_item c s hi o) = run_from c s (expand hi).
+Proof.
+  intros c s [i|b n] o; cbn [Check.SubmitterCheck.check_item expand].
+  - rewrite check_single_state. reflexivity.
+  - reflexivity.
+Qed.
+
+Lemma check_items_state : forall c h os s, length h = length os ->
+  fst (Check.SubmitterCheck.check_items c s h os) = run_from c s (expand_hist h).
+Proof.
+  intros c. induction h as [|hi h IH]; intros os s Hlen; destruct os as [|o os]; try discriminate Hlen.
+  - reflexivity.
+  - cbn [Check.SubmitterCheck.check_items].
+    pose proof (check_item_state c s hi o) as E1.
+    destruct (Check.SubmitterCheck.check_item c s hi o) as [s1 e1]. cbn [fst] in E1.
+    specialize (IH os s1 ltac:(cbn [length] in Hlen; lia)).
+    destruct (Check.SubmitterCheck.check_items c s1 h os) as [s2 e2]. cbn [fst] in *.
+    unfold expand_hist. cbn [flat_map]. rewrite run_from_app. rewrite <- E1. exact IH.
+Qed.
